@@ -145,6 +145,11 @@ theorem C09_removal_costs (P : Sem.Params) (n : Sem.Sig) (s : Stm) (hav : stmAvo
   unused_costs P n s hav T T' hag x
 
 open Proofs.C09sem in
+/-- the executable check the driver runs on the programs the real pass removed rules from implies the side condition -/
+theorem C09_check_sound (n : String) (k : Nat) (prg : Prog) (h : unusedCheck n k prg = true) : Unused n k prg :=
+  unusedCheck_sound n k prg h
+
+open Proofs.C09sem in
 /-- **the display is kept**: a `#show t : B.` statement that does not mention `n/k` shows the same terms -/
 theorem C09_removal_shown (P : Sem.Params) (n : Sem.Sig) (s : Stm) (hav : stmAvoids n s = true) (T T' : Sem.Interp)
     (hag : Sem.AgreeOffName n T T') (x : Sym) : shownTerms P T s x ↔ shownTerms P T' s x :=
